@@ -14,6 +14,7 @@ from mc.env import guard
 from tracklib.core.track import Track
 from tracklib.core.obs import Obs
 from tracklib.core.obs_coords import ENUCoords
+from tracklib.core.track_collection import TrackCollection
 from tracklib.algo.segmentation import (split, segmentation, MODE_COMPARAISON_AND, MODE_COMPARAISON_OR)
 
 ID = "C11"
@@ -39,6 +40,7 @@ N_VARIANTS = 4
 NAN = float("nan")
 
 OBLIGATIONS = {
+    "through_collection_wrapper": "the same segmentation was also requested through TrackCollection.segmentation (positional and keyword mode)",
     "pieces_segmented_again": "every piece of a split was segmented again into a marker name that did not exist yet",
     "marker_on_first": "a marker on the first fix",
     "marker_on_last": "a marker on the last fix (empty tail)",
@@ -236,13 +238,21 @@ def _read_marker(t, n, out="out"):
     return [_num(v) for v in vals]
 
 
-def judge_seg(key, t, names, data, thr, mode, scalar, case, ctx, out="out"):
+def judge_seg(key, t, names, data, thr, mode, scalar, case, ctx, out="out", via="function"):
     """One segmentation() call on track t; compares the 'out' column and that nothing else changed. -> markers or None."""
     n = len(data[0])
     before = snap(t)
     had_out = out in names_of(t)
     col_before = names_of(t)
-    if scalar:
+    if via == "collection":          # the same operation through the wrapper of a collection holding this one track
+        seg = TrackCollection([t]).segmentation
+        a_in, a_thr = (names[0], thr[0]) if scalar else (list(names), list(thr))
+        st, r = guard(seg, a_in, out, a_thr, MODES[mode])
+    elif via == "collection-keyword":
+        seg = TrackCollection([t]).segmentation
+        a_in, a_thr = (names[0], thr[0]) if scalar else (list(names), list(thr))
+        st, r = guard(lambda: seg(a_in, out, a_thr, mode_comparaison=MODES[mode]))
+    elif scalar:
         st, r = guard(segmentation, t, names[0], out, thr[0], MODES[mode])
     else:
         st, r = guard(segmentation, t, list(names), out, list(thr), MODES[mode])
@@ -324,6 +334,10 @@ def check_seg(variant, nf, n, flat, thr, mode, scalar, ctx):
     ctx.case(nontrivial)
     t, names = _seg_track(variant, data, n)
     judge_seg("segmentation/", t, names, data, thr, mode, scalar, case, ctx)
+    for via in ("collection", "collection-keyword"):
+        t, names = _seg_track(variant, data, n)
+        judge_seg("TrackCollection.segmentation/", t, names, data, thr, mode, scalar, dict(case, via=via), ctx, via=via)
+    ctx.oblige("through_collection_wrapper")
 
 
 def check_seq(variant, n, flat, thr_a, thr_b, mode, ctx):
